@@ -124,6 +124,167 @@ def mk(nrows, sep_name, maxlen, small=False, ncols=2):
     return check
 
 
+# ---------------------------------------------------------------- the list-of-rows model
+_PERMS3 = list(itertools.permutations(range(3)))
+
+
+def _install_argsort_contract(perm_choice):
+    """numpy documents the order of equal keys only for kind='stable' (or 'mergesort'). Table.sorted hands a record array to
+    ndarray.argsort (C level): the environment stub returns, for any other kind, a SOLVER-CHOSEN permutation among all those that
+    sort the keys; with kind='stable' it returns the stable one. Everything else in cogent3.util.table sees the real numpy."""
+    import types
+
+    import numpy
+
+    import cogent3.util.table as T
+
+    real = numpy
+
+    class Rec:
+        def __init__(self, arr):
+            self.arr = arr
+
+        def argsort(self, axis=-1, kind=None, order=None):
+            n = len(self.arr)
+            if kind in ("stable", "mergesort"):
+                return self.arr.argsort(kind="stable")
+            keys = [tuple(self.arr[i].tolist()) for i in range(n)]
+            valid = [p for p in itertools.permutations(range(n)) if all(keys[p[i]] <= keys[p[i + 1]] for i in range(n - 1))]
+            return real.array(valid[perm_choice % len(valid)], dtype=int)
+
+    shim = types.SimpleNamespace(**{k: getattr(real, k) for k in dir(real) if not k.startswith("__")})
+    shim.rec = types.SimpleNamespace(**{k: getattr(real.rec, k) for k in dir(real.rec) if not k.startswith("__")})
+    shim.rec.fromarrays = lambda *a, **kw: Rec(real.rec.fromarrays(*a, **kw))
+    saved = T.numpy
+    T.numpy = shim
+    return lambda: setattr(T, "numpy", saved)
+
+
+def mk_rowmodel(op):
+    """3-row tables with SYMBOLIC small integer cells (all tie patterns) and symbolic structural arguments (which column, which
+    column order, which of the sorting permutations numpy returns); the Table operation must give what the same operation gives
+    on the plain list of rows."""
+
+    # per operation: only the inputs it depends on are symbolic (upper bounds; 0 = fixed at 0)
+    XM, YM, KM, PM = {
+        "sorted_x": (2, 0, 0, 5), "sorted_x_rev": (2, 0, 0, 5), "sorted_xy": (1, 1, 0, 5), "sorted_x_yrev": (1, 1, 0, 5),
+        "filtered": (2, 1, 0, 0), "count_distinct": (2, 0, 2, 0), "columns": (0, 0, 2, 5), "appended": (2, 0, 0, 0),
+        "transposed": (2, 0, 2, 0), "new_column": (2, 1, 0, 0), "inner_join_natural": (2, 1, 0, 5), "inner_join_keys": (2, 1, 0, 5),
+        "cross_join": (1, 0, 0, 5),
+    }[op]
+    X2M = 0 if op in ("inner_join_natural", "inner_join_keys", "cross_join", "appended") else XM  # joins: the third left row is fixed
+
+    Y2M = YM if X2M else 0
+    RADIX = [XM + 1, XM + 1, X2M + 1, YM + 1, YM + 1, Y2M + 1, KM + 1, PM + 1]
+    TOTAL = 1
+    for r_ in RADIX:
+        TOTAL *= r_
+
+    def decode(code):
+        out = []
+        for r_ in RADIX:
+            out.append(code % r_)
+            code //= r_
+        return out
+
+    def check(code: int) -> bool:
+        """
+        pre: 0 <= code < TOTAL
+        post: _
+        """
+        from cogent3 import make_table
+
+        _ = TOTAL
+        if not W.PLAIN:
+            from crosshair import deep_realize
+
+            # cells go into typed numpy arrays at once: the input tuple is ONE mixed-radix symbolic integer, realised up front (CrossHair
+            # forks on its value; the bounded space is exhausted with ~2 paths per value instead of ~150 for eight separate integers)
+            code = deep_realize(code)
+        x0, x1, x2, y0, y1, y2, k, perm = decode(code)
+        H = ["id", "x", "y"]
+        if op == "transposed":
+            y0, y1, y2 = 7, 5, 6  # a selectable column needs distinct values
+        rows = [["r0", x0, y0], ["r1", x1, y1], ["r2", x2, y2]]
+        t = make_table(header=H, data=[list(r) for r in rows])
+        L = lambda tab: [list(r) for r in tab.to_list()]
+        ok = True
+        if op.startswith("sorted"):
+            restore = _install_argsort_contract(perm)
+            try:
+                if op == "sorted_x":
+                    got, want = L(t.sorted(columns="x")), sorted(rows, key=lambda r: r[1])
+                elif op == "sorted_x_rev":
+                    got, want = L(t.sorted(reverse="x")), sorted(rows, key=lambda r: -r[1])
+                elif op == "sorted_xy":
+                    got, want = L(t.sorted(columns=["x", "y"])), sorted(rows, key=lambda r: (r[1], r[2]))
+                else:
+                    got, want = L(t.sorted(columns=["x", "y"], reverse=["y"])), sorted(rows, key=lambda r: (r[1], -r[2]))
+            finally:
+                restore()
+            if len({x0, x1, x2}) < 3 and not W.reach("ties"):
+                return False
+            ok = got == want
+        elif op == "filtered":
+            ok = L(t.filtered(lambda v: v >= 1, columns="x")) == [r for r in rows if r[1] >= 1]
+            ok = ok and L(t.filtered(lambda r: r[0] > r[1], columns=["x", "y"])) == [r for r in rows if r[1] > r[2]]
+        elif op == "count_distinct":
+            col = H[k]
+            vals = [r[k] for r in rows]
+            cu = t.count_unique(col)
+            ok = {key: cu[key] for key in cu} == {v: vals.count(v) for v in set(vals)} and set(t.distinct_values(col)) == set(vals)
+        elif op == "columns":
+            c1, c2 = H[k], H[_PERMS3[perm][0]]
+            if c1 != c2:
+                sub = t.get_columns([c1, c2])
+                ok = list(sub.header) == [c1, c2] and L(sub) == [[r[H.index(c1)], r[H.index(c2)]] for r in rows]
+        elif op == "appended":
+            t2 = make_table(header=H, data=[["r3", y0, x0]])
+            ok = L(t.appended(None, t2)) == rows + [["r3", y0, x0]]
+        elif op == "transposed":
+            col = H[k]
+            newh = [str(r[k]) for r in rows]
+            if len(set(newh)) == 3:
+                tr = t.transposed("new", select_as_header=col)
+                others = [c for c in H if c != col]
+                ok = list(tr.header) == ["new"] + newh and L(tr) == [[c] + [r[H.index(c)] for r in rows] for c in others]
+                if not W.reach("transposed"):
+                    return False
+        elif op == "new_column":
+            ok = L(t.with_new_column("z", lambda r: r[0] * 10 + r[1], columns=["x", "y"])) == [r + [r[1] * 10 + r[2]] for r in rows]
+        elif op in ("inner_join_natural", "inner_join_keys", "cross_join"):
+            a = make_table(header=["k", "j", "v"], data=[[x0, y0, 10], [x1, y1, 20], [x2, y2, 30]])
+            bh = ["j", "k", "w"]
+            brows = [{"k": 0, "j": 0, "w": 100}, {"k": 1, "j": 0, "w": 200}, {"k": 1, "j": 1, "w": 300}, {"k": 2, "j": 1, "w": 400}, {"k": 1, "j": 1, "w": 500}]
+            order = [bh[i] for i in _PERMS3[perm]]  # the column ORDER of the second table is symbolic
+            b = make_table(header=order, data=[[r[c] for c in order] for r in brows], title="B")
+            arows = [{"k": x0, "j": y0, "v": 10}, {"k": x1, "j": y1, "v": 20}, {"k": x2, "j": y2, "v": 30}]
+            if op == "inner_join_natural":
+                j = a.inner_join(b, use_index=False)
+                want = [[ra["k"], ra["j"], ra["v"], rb["w"]] for ra in arows for rb in brows if ra["k"] == rb["k"] and ra["j"] == rb["j"]]
+                ok = list(j.header) == ["k", "j", "v", "right_w"] and L(j) == want
+            elif op == "inner_join_keys":
+                j = a.inner_join(b, columns_self="k", columns_other="k", use_index=False)
+                rest = [c for c in order if c != "k"]
+                want = [[ra["k"], ra["j"], ra["v"]] + [rb[c] for c in rest] for ra in arows for rb in brows if ra["k"] == rb["k"]]
+                ok = list(j.header) == ["k", "j", "v"] + ["right_" + c for c in rest] and L(j) == want
+            else:
+                j = a.cross_join(b)
+                want = [[ra["k"], ra["j"], ra["v"]] + [rb[c] for c in order] for ra in arows for rb in brows]
+                ok = list(j.header) == ["k", "j", "v"] + ["right_" + c for c in order] and L(j) == want
+        else:
+            raise KeyError(op)
+        if not W.reach("end"):
+            return False
+        return bool(ok)
+
+    return check
+
+
+ROW_OPS = ["sorted_x", "sorted_x_rev", "sorted_xy", "sorted_x_yrev", "filtered", "count_distinct", "columns", "appended", "transposed", "new_column",
+           "inner_join_natural", "inner_join_keys", "cross_join"]
+
+
 ENCODED = [("src/cogent3/format/table.py", ["separator_format"])]
 BOUNDS = {
     "quick": ["1 row x 2 cells and 2 rows x 2 cells of <= 1 character; 1 row x 1 cell of <= 2 characters (thorough: <= 3, and 1 row x 2 cells of <= 2 characters); alphabet = {a, 1, delimiter, double quote, space}, empty cells included; delimiter comma and tab; header fixed; no title / legend"],
@@ -158,8 +319,17 @@ def obligations(tier):
         if T:
             obs.append(Ob(f"roundtrip/{sep}/1x1/len3", __name__, "mk", {"nrows": 1, "sep_name": sep, "maxlen": 3, "ncols": 1}, timeout=3600, group="csv"))
         obs.append(Ob(f"roundtrip/{sep}/2x2/len1", __name__, "mk", {"nrows": 2, "sep_name": sep, "maxlen": 1}, timeout=1800, group="csv"))
+    for op in ROW_OPS:
+        tw = ("end",) + (("ties",) if op.startswith("sorted") else ()) + (("transposed",) if op == "transposed" else ())
+        obs.append(Ob(f"rows/{op}", __name__, "mk_rowmodel", {"op": op}, timeout=1800, twins=tw, group="rows"))
     return obs
 
 
 def classify(name, args, cex, rep):
+    if name.startswith("rows/sorted"):
+        return "Table.sorted:order-of-ties-left-to-unstable-argsort"
+    if name == "rows/inner_join_natural":
+        return "Table.inner_join:natural-join-pairs-keys-by-position"
+    if name.startswith("rows/"):
+        return None
     return "separator_format:quotes-not-escaped"
